@@ -164,6 +164,8 @@ func checkC10(c *Check) {
 	n := importRules(c, "C05", checkC05, "causal-order: ", "write-before-forward", "write-error-no-forward", "who-may-send")
 	n += importRules(c, "C04", checkC04, "causal-order: ", "emit-only-bound", "sessions-start-unbound")
 	c.Floor("imported causal-order obligations", 10, n)
+	// a flush that failed half-way is never run again: the failure stops the processor (rules of C15)
+	importRules(c, "C15", checkC15, "not-written-twice: failed flush stops: ", "no-error-dropped", "processor-returns-received-error")
 	m := importRules(c, "C02", checkC02, "not-written-twice: ", "exactly-one-of", "flush-shape: queue emptied after success")
 	m += importRules(c, "C11", checkC11, "not-written-twice: ", "at-most-one-event")
 	c.Floor("imported not-written-twice obligations", 20, m)
@@ -196,4 +198,43 @@ func openHelperAppend(c *Check, call *ssa.Call) {
 		c.Cond(okA, "writer-is-the-append-file", "os.OpenFile in "+sc.Name(), p.InstrPos(cl), fmt.Sprintf("flags %#x include O_APPEND", k.Int64()), "the events file is not opened in append mode: concurrent writers overwrite each other's lines")
 	})
 	c.Floor("os.OpenFile calls in the open helper", 1, n)
+}
+
+
+// eventWriterUnbuffered (C05; the same necessary condition as C10's
+// writer-is-the-append-file, stated for the error contract): every
+// EventWriter of the daemon encodes straight into the file returned by the
+// open helper. Through a buffering or queueing writer Write reports success
+// for an event that has not been written (and may never be), so "when the
+// event cannot be written the error is returned and nothing is forwarded"
+// fails: the login is handed over first and the error surfaces later, from
+// a flush.
+func eventWriterUnbuffered(c *Check, rule string) {
+	p := c.P
+	n := 0
+	for _, fn := range p.AllRepoFuncs() {
+		if !p.InDaemon(fn) {
+			continue
+		}
+		allInstrs(fn, func(in ssa.Instruction) {
+			cl, ok := in.(*ssa.Call)
+			if !ok {
+				return
+			}
+			sc := staticCallee(cl.Common())
+			if sc == nil || !(sc.String() == "github.com/metal-toolbox/auditevent.NewDefaultAuditEventWriter" || sc.String() == "github.com/metal-toolbox/auditevent.NewAuditEventWriter") {
+				return
+			}
+			n++
+			name := "writer created in " + fn.Name()
+			if sc.Name() != "NewDefaultAuditEventWriter" {
+				c.Bad(rule, name, p.InstrPos(cl), "the EventWriter is built on a custom encoder: that a failed write is reported by the Write that caused it cannot be established")
+				return
+			}
+			wo := NewResolver(p).Of(cl.Call.Args[0])
+			okW := wo.K == "call" && strings.HasPrefix(wo.Name, "github.com/metal-toolbox/auditevent/helpers.Open") && wo.Idx == 0
+			c.Cond(okW, rule, name, p.InstrPos(cl), "encodes straight into the file returned by "+wo.Name+": a failed write is the error of that Write", "the events go through a wrapping writer ("+trimOrg(wo.String())+"): a buffered or queued write reports success before anything is written, so the login is forwarded although its event cannot be written, and the error surfaces later")
+		})
+	}
+	c.Floor("EventWriter constructions in the daemon", 1, n)
 }
